@@ -10,18 +10,20 @@ git -C /repo worktree remove --force $wt 2>/dev/null
 git -C /repo worktree add -q --detach $wt HEAD || exit 2
 cp $src/SEED/patch.diff $out/patch.diff
 cp $src/SEED/NOTES.md $out/NOTES.md 2>/dev/null
-demos=$(cd $src/SEED && ls *_test.go 2>/dev/null)
+demos=$(cd $src/SEED && find . -name '*_test.go' | sed 's#^\./##')
 pkgs=$(grep '^+++ b/' $out/patch.diff | sed 's#^+++ b/##' | xargs -n1 dirname | sort -u)
 log=$out/confirm.log; : > $log
 # locate where each demo lives in the agent's tree and copy it to the same place
+demopkgs=""
 for d in $demos; do
-  p=$(cd $src && find . -name "$d" -not -path './SEED/*' | head -1)
+  if [ "$(dirname $d)" != "." ] && [ -f "$src/$d" ]; then p=./$d; else p=$(cd $src && find . -name "$(basename $d)" -not -path './SEED/*' | head -1); fi
   [ -z "$p" ] && { echo "demo $d not found in tree" >> $log; continue; }
-  mkdir -p $wt/$(dirname $p); cp $src/$p $wt/$p; cp $src/$p $out/$d
+  mkdir -p $wt/$(dirname $p) $out/$(dirname $d); cp $src/$p $wt/$p; cp $src/$p $out/$d
+  demopkgs="$demopkgs $(dirname $p)"
   echo "demo $p" >> $log
 done
-demopkgs=$(for d in $demos; do (cd $src && find . -name "$d" -not -path './SEED/*' | head -1 | xargs dirname); done | sort -u)
-names=$(cd $src/SEED && grep -ho '^func Test[A-Za-z0-9_]*' *_test.go | sed 's/func //' | paste -sd'|')
+demopkgs=$(echo $demopkgs | tr ' ' '\n' | sort -u)
+names=$(cd $src/SEED && find . -name '*_test.go' | xargs grep -ho '^func Test[A-Za-z0-9_]*' | sed 's/func //' | sort -u | paste -sd'|')
 r_without=PASS; r_with=PASS; r_pkg=PASS
 for p in $demopkgs; do (cd $wt && go test -count=1 -vet=off -run "^($names)\$" ./$p/ >> $log 2>&1) || r_without=FAIL; done
 (cd $wt && git apply $out/patch.diff) || { echo "patch does not apply" >> $log; r_with=NOAPPLY; }
